@@ -516,6 +516,10 @@ func Follow(c *Ctx) error {
 	defer disk.RemoveAll(dir)
 	remaining := cases
 	crashed := map[int]string{}
+	// a resolver that does not terminate costs a watchdog period and a fresh child per case: after a dozen hangs / crashes the
+	// verdict is established and the rest of the cases is left out (a run over thousands of hanging cases would only time out)
+	skipped := map[int]bool{}
+	restarts := 0
 	for len(remaining) > 0 {
 		js, _ := json.Marshal(remaining)
 		os.WriteFile(filepath.Join(dir, "cases.json"), js, 0644)
@@ -558,6 +562,14 @@ func Follow(c *Ctx) error {
 			return fmt.Errorf("follow child made no progress: %v %s", runErr, trunc(stderr.String()))
 		}
 		remaining = rest
+		restarts++
+		if restarts >= 12 && len(remaining) > 0 {
+			for _, fc := range remaining {
+				skipped[fc.Case] = true
+			}
+			c.Stats.Note(fmt.Sprintf("stopped after %d hangs / crashes: %d cases not run", restarts, len(remaining)))
+			break
+		}
 	}
 	byCase := map[int]vt.Ev{}
 	data, _ := os.ReadFile(filepath.Join(dir, "events.ndjson"))
@@ -575,6 +587,9 @@ func Follow(c *Ctx) error {
 		byCase[int(n)] = e
 	}
 	for _, fc := range cases {
+		if skipped[fc.Case] {
+			continue
+		}
 		e, ok := byCase[fc.Case]
 		if !ok {
 			// crashed: report as non-termination with the crash text
